@@ -17,7 +17,7 @@ import numpy as np
 import z3
 
 from . import sym
-from .sym import EngineError, SArr, SymBool, SymComplex, SymReal, is_sym
+from .sym import isfloat, iscomplex, EngineError, SArr, SymBool, SymComplex, SymReal, is_sym
 
 
 class PreconditionFailed(Exception):
@@ -169,7 +169,7 @@ class L:
             if aa.shape != bb.shape:
                 return False
             return L.and_(*[L.eq(x, y) for x, y in zip(aa.reshape(-1), bb.reshape(-1))])
-        if type(a) is SymComplex or type(b) is SymComplex or isinstance(a, complex) or isinstance(b, complex):
+        if type(a) is SymComplex or type(b) is SymComplex or iscomplex(a) or iscomplex(b):
             pa, pb = sym._re_im(a), sym._re_im(b)
             return L.and_(L.eq(pa[0], pb[0]), L.eq(pa[1], pb[1]))
         if _symbolic(a, b):
@@ -291,7 +291,7 @@ class L:
 
 
 def _inf(x):
-    return isinstance(x, (float, np.floating)) and math.isinf(float(x))
+    return isfloat(x) and math.isinf(float(x))
 
 
 # ----------------------------------------------------------------------------- contract base
